@@ -147,6 +147,8 @@ def gen_env(rnd, idx, max_depth):
     if rnd.random() < 0.6:
         a["fields"].append({"name": "g", "field": featured(rnd)})
     add_defaults(rnd, a, None)
+    if a.get("required") is not None and rnd.random() < 0.3:
+        a["spell_optional"] = True       # `_optional = [...]`, the other documented spelling
     b = S.gen_class(rnd, pre + "B", ctx_names=base_names, n_fields=rnd.randint(1, 2), container_bias=0.3,
                     max_depth=max_depth, allow_hook=False)
     for i, fd in enumerate(b["fields"]):
@@ -783,6 +785,76 @@ def replay(obj):
         ctx.close()
 
 
+def enums_def():
+    out = []
+    for n in sorted(G.ENUMS):
+        cls = G.ENUMS[n]
+        out.append("{| en_name := %s; en_by_value := false; en_members := %s |}" % (
+            E.pstr(n), E.lst(["(%s, %s)" % (E.pstr(m.name), E.pval(E.reify(m.value))) for m in cls])))
+    return "Definition ens0 : enums := %s.\n" % E.lst(out)
+
+
+def deser_doc_cases(items):
+    """The `deser` steps whose document is JSON-shaped, as (index, ctx, step): compared with the model of the
+    REAL pre-processing (Ser/Deserialize.v deserialize = what C01_deser_* are about), not only with the
+    constructor on pre-computed keyword arguments."""
+    from typedpy.structures import TypedPyDefaults
+    out = []
+    for i, (ctx, st) in enumerate(items):
+        en = st[0]
+        if en[0] != "deser" or not all(L.json_shaped(v) for _, v in en[2]):
+            continue
+        cls = ctx.classes[en[1]]
+        own = bool(cls.__dict__.get("_additional_properties", cls.__dict__.get(
+            "_additionalProperties", TypedPyDefaults.additional_properties_default)))
+        if own != ctx.resolved(en[1])["additional"]:
+            continue      # the deserializer reads the class's OWN setting, __setattr__ the inherited one
+        out.append((i, ctx, st))
+    return out
+
+
+def evaluate_deser(cases, tag="c01deser", per=300):
+    """-> {name: [positions in cases]} for mismatch / in_dom / declines / model_unsound."""
+    from typedpy.structures import TypedPyDefaults
+    names = ("mismatch", "in_dom", "declines", "model_unsound")
+    flags = "{| df_ignore_invalid := %s; df_compact := %s |}" % (
+        E.blit(bool(TypedPyDefaults.ignore_invalid_additional_properties_in_deserialization)),
+        E.blit(bool(TypedPyDefaults.compact_deserialization_default)))
+    shards = []
+    for s in range(0, len(cases), per):
+        chunk = cases[s:s + per]
+        ctxs = []
+        for _, ctx, _ in chunk:
+            if ctx not in ctxs:
+                ctxs.append(ctx)
+        body = emit_env(ctxs) + enums_def()
+        recs = []
+        for _, ctx, st in chunk:
+            en, cur_r, out, _fl = st
+            doc = ("dict", [(("str", k), v) for k, v in en[2]])
+            tbl = G.match_table(all_env_fields(ctx), [doc] + ([out[1]] if out[0] == "ok" else [])
+                                + [fd["default"] for c in ctx.asts for fd in c["fields"] if fd.get("default") is not None])
+            recs.append("{| dc_tbl := %s; dc_env := env0; dc_ens := ens0; dc_flags := %s; dc_ku := %s; dc_cls := %s; "
+                        "dc_doc := %s; dc_obs := %s |}" % (
+                            G.emit_table(tbl), flags, "None" if en[3] == "Deserializer" else "(Some true)",
+                            E.pstr(en[1]), E.pval(doc), E.outcome(out)))
+        body += "Definition dcases : list dcase := %s.\n" % E.lst(["\n " + r for r in recs])
+        body += "Eval vm_compute in (map dflags_of dcases).\n"
+        shards.append((body, len(chunk), s))
+    res = core.eval_cases([b for b, _, _ in shards], tag, HEADER)
+    out = {n: [] for n in names}
+    for si, (rc, so, se) in enumerate(res):
+        vals = core.parse_eval(so)
+        bits = re.findall(r"true|false", vals[0]) if (rc == 0 and len(vals) == 1) else []
+        if len(bits) != len(names) * shards[si][1]:
+            raise RuntimeError("deser shard %d failed to evaluate: %s" % (si, (so + se)[-1500:]))
+        for i in range(shards[si][1]):
+            for j, n in enumerate(names):
+                if bits[i * len(names) + j] == "true":
+                    out[n].append(shards[si][2] + i)
+    return out
+
+
 def site_status(rep):
     """Today's entry-site table (Gen/EntrySites.v, regenerated from the working tree): which rows the
     model predicts to be holes (Check/C01chk.v unsafe_site_kinds, evaluated in Coq)."""
@@ -930,6 +1002,7 @@ def run(rep, tier):
         env, chain, _ = where[-1]
         rep.sample({"chain": chain, "observed": repr(items[-1][1][2])[:400]})
     _t["random_run_s"] = round(_time.time() - _t["start"] - _t["lattice_run_s"], 1)
+    r = None
     unsafe_sites = site_status(rep) if model_ok else None
     try:
         from harness.genmods import c01_enum_guard as EG
@@ -1007,6 +1080,33 @@ def run(rep, tier):
                 rep.broken("correspondence:run_entry",
                            "model (Struct/Entry.v, Struct/Instance.v) and typedpy differ on %d generated steps "
                            "(entry kinds %s); the spec holds on every explored input" % (len(r["smismatch"]), kinds),
+                           {"env": env, "chain": chain[:si + 1], "failing_step": si, "observed": st[2],
+                            "python": python_src(ctx, chain[:si + 1], env)})
+    # ---- deserialization against the model of its REAL pre-processing (the model C01_deser_* are about)
+    if model_ok and r is not None:
+        dc = deser_doc_cases(items)
+        rep.cov["streams"]["deser-doc"] = {"evaluations": len(dc)}
+        try:
+            dr = evaluate_deser(dc) if dc else None
+        except RuntimeError as ex:
+            dr = None
+            rep.broken("correspondence:deserialize/coq-eval", str(ex))
+        if dr is not None:
+            viol = set(r["sviolation"])
+            mism = [k for k in dr["mismatch"] if dc[k][0] not in viol]
+            rep.cov["streams"]["deser-doc"].update({
+                "in_theorem_domain": len(dr["in_dom"]), "model_declines": len(dr["declines"]),
+                "accepted": sum(1 for _, _, st in dc if st[2][0] == "ok")})
+            rep.obligation("correspondence:deserialize", not mism and not dr["model_unsound"],
+                           "%d JSON-shaped documents, %d mismatches outside concrete spec failures, %d in the domain of "
+                           "C01_deserialize_sound" % (len(dc), len(mism), len(dr["in_dom"])))
+            if (mism or dr["model_unsound"]) and not any(not v["no_input"] for v in rep.violations):
+                k = (mism or dr["model_unsound"])[0]
+                i, ctx, st = dc[k]
+                env, chain, si = where[i]
+                rep.broken("correspondence:deserialize",
+                           "model of deserialization (Ser/Deserialize.v) and typedpy differ on %d documents; the spec holds "
+                           "on every explored input" % len(mism),
                            {"env": env, "chain": chain[:si + 1], "failing_step": si, "observed": st[2],
                             "python": python_src(ctx, chain[:si + 1], env)})
     for ctx in ctxs:
